@@ -20,7 +20,7 @@ TConnClosed == IsEvent("cl.connclosed") /\ (\E w \in BOOLEAN : ConnClosed(w)) /\
 TReached == IsEvent("cl.reached") /\ Reached /\ Matches
 TSlow == IsEvent("cl.slow") /\ Slow /\ Matches
 TAttempt == IsEvent("cl.attempt") /\ Attempt /\ Matches
-TAdd == IsEvent("cl.add") /\ Add /\ Matches
+TAdd == IsEvent("cl.add") /\ (\E a \in BOOLEAN : Add(a)) /\ Matches
 TTail == IsEvent("cl.tail") /\ (\E a \in BOOLEAN : Tail(a)) /\ Matches
 TReset == IsEvent("reset") /\ closed' = FALSE /\ connected' = FALSE /\ disconnected' = TRUE /\ connecting' = Auto
           /\ listed' = 0 /\ live' = 0 /\ attempt' = 0 /\ orphans' = 0
